@@ -100,6 +100,13 @@ def build_model(rng, idx: int, n_funcs: int):
                     d = None  # an entry of the Returns section without type
                 f["multi"].append({"name": f"r{q}", "hint": h, "doc": d})
         funcs.append(f)
+    # declarations named like the node that holds them: a function named like its module, a method named like its class
+    plain = [f for f in funcs if not f["method"] and not f.get("ctor")]
+    if plain:
+        plain[0]["name"] = "srcmod"
+    meths = [f for f in funcs if f["method"] and not f.get("ctor")]
+    if meths:
+        meths[0]["cls_name"] = meths[0]["name"]
     return funcs
 
 
@@ -151,7 +158,7 @@ def render_module(funcs, style: str) -> str:
         elif f["method"]:
             body = "".join("        " + ln + "\n" if ln else "\n" for ln in doc.split("\n")[:-1])
             deco, recv = {"inst": ("", "self, "), "static": ("    @staticmethod\n", ""), "class": ("    @classmethod\n", "cls, ")}[f.get("mkind", "inst")]
-            out.append(f"class Holder_{f['name']}:\n{deco}    def {f['name']}({recv}{sig}){ret}:\n        \"\"\"{body[8:]}        \"\"\"\n        ...\n\n\n")
+            out.append(f"class {f.get('cls_name') or 'Holder_' + f['name']}:\n{deco}    def {f['name']}({recv}{sig}){ret}:\n        \"\"\"{body[8:]}        \"\"\"\n        ...\n\n\n")
         else:
             body = "".join("    " + ln + "\n" if ln else "\n" for ln in doc.split("\n")[:-1])
             out.append(f"def {f['name']}({sig}){ret}:\n    \"\"\"{body[4:]}    \"\"\"\n    ...\n\n\n")
@@ -246,7 +253,7 @@ def make_judge(chk: Check):
         exp_result_warn = set()
         for f in funcs:
             d = byname.get(f["name"])
-            fid = f"pk/srcmod/{'Holder_' + f['name'] + '/' if f['method'] else ''}{f['name']}"
+            fid = f"pk/srcmod/{(f.get('cls_name') or 'Holder_' + f['name']) + '/' if f['method'] else ''}{f['name']}"
             if f.get("ctor"):
                 fid = f"pk/srcmod/Ctor_{f['name']}/__init__"
             if d is None:
